@@ -624,4 +624,207 @@ padding region for such views (open finding C14-conv-broadcast-padding). -/
 theorem c14_im2col_padding_test_fails_for_stride_zero :
     inImage 3 0 ((-1 : Int) * (0 : Nat)) = true ∧ ¬ ((0 : Int) ≤ -1) := by decide
 
+theorem length_rowMain (p : Params) :
+    (rowChanMain p).length = p.chans * p.kh * p.kw ∧ (rowYMain p).length = p.chans * p.kh * p.kw ∧
+      (rowXMain p).length = p.chans * p.kh * p.kw := by
+  refine ⟨?_, ?_, ?_⟩
+  · unfold rowChanMain
+    rw [length_flatMap_blocks (p.kh * p.kw) _ (by intro a; simp), Nat.mul_assoc]
+  · unfold rowYMain
+    rw [length_flatMap_blocks (p.kh * p.kw) _
+      (by intro a; exact length_flatMap_blocks p.kw _ (by intro b; simp) p.kh), Nat.mul_assoc]
+  · unfold rowXMain
+    rw [length_flatMap_blocks (p.kh * p.kw) _
+      (by intro a; exact length_flatMap_blocks p.kw _ (by intro b; simp) p.kh), Nat.mul_assoc]
+
+theorem length_colMain (p : Params) (yP xP : Nat) :
+    (colYMain p yP xP).length = yP * xP ∧ (colXMain p yP xP).length = yP * xP := by
+  constructor
+  · unfold colYMain; exact length_flatMap_blocks xP _ (by intro a; simp) yP
+  · unfold colXMain; exact length_flatMap_blocks xP _ (by intro a; simp) yP
+
+theorem row_index_lt (p : Params) (c ky kx : Nat) (hc : c < p.chans) (hky : ky < p.kh) (hkx : kx < p.kw) :
+    (c * p.kh + ky) * p.kw + kx < p.chans * p.kh * p.kw := by
+  have h1 : c * p.kh + ky < p.chans * p.kh := by
+    calc c * p.kh + ky < c * p.kh + p.kh := by omega
+      _ = (c + 1) * p.kh := by rw [Nat.succ_mul]
+      _ ≤ p.chans * p.kh := Nat.mul_le_mul_right _ hc
+  calc (c * p.kh + ky) * p.kw + kx < (c * p.kh + ky) * p.kw + p.kw := by omega
+    _ = (c * p.kh + ky + 1) * p.kw := by rw [Nat.succ_mul]
+    _ ≤ p.chans * p.kh * p.kw := Nat.mul_le_mul_right _ h1
+
+/-- **C14 D7 on the driven function.** The tables returned by `buildIm2col` (what the `im2col`
+requests compare with the real `build_im2col`), padded to any row / column step, hold for every used
+row `(chan, k_y, k_x)` and used column `(patch_y, patch_x)` the stride-scaled logical coordinates. -/
+theorem c14_im2col_tables_layout_independent (p : Params) (cs rs : Nat) (t : Tables) (yP xP : Nat)
+    (ht : buildIm2col p cs rs = some t)
+    (hyP : outSize p.h p.kh p.strideH p.padTop p.padBottom p.dilY = some yP)
+    (hxP : outSize p.w p.kw p.strideW p.padLeft p.padRight p.dilX = some xP)
+    (c ky kx py px : Nat) (hc : c < p.chans) (hky : ky < p.kh) (hkx : kx < p.kw) (hy : py < yP) (hx : px < xP) :
+    t.nRows = p.chans * p.kh * p.kw ∧ t.nCols = xP * yP ∧
+    t.rowChan[(c * p.kh + ky) * p.kw + kx]? = some ((c : Int) * p.sc) ∧
+    t.rowY[(c * p.kh + ky) * p.kw + kx]? = some ((p.sth : Int) * ky * p.dilY) ∧
+    t.rowX[(c * p.kh + ky) * p.kw + kx]? = some ((p.stw : Int) * kx * p.dilX) ∧
+    t.colY[py * xP + px]? = some (((py : Int) * p.strideH - p.padTop) * p.sth) ∧
+    t.colX[py * xP + px]? = some (((px : Int) * p.strideW - p.padLeft) * p.stw) := by
+  unfold buildIm2col at ht
+  split at ht
+  · cases ht
+  · rw [hyP, hxP] at ht
+    simp only [Option.some.injEq] at ht
+    subst ht
+    have hr := row_index_lt p c ky kx hc hky hkx
+    have hq : py * xP + px < yP * xP := by
+      calc py * xP + px < py * xP + xP := by omega
+        _ = (py + 1) * xP := by rw [Nat.succ_mul]
+        _ ≤ yP * xP := Nat.mul_le_mul_right _ hy
+    obtain ⟨l1, l2, l3⟩ := length_rowMain p
+    obtain ⟨l4, l5⟩ := length_colMain p yP xP
+    refine ⟨rfl, rfl, ?_, ?_, ?_, ?_, ?_⟩
+    · simp only; rw [List.getElem?_append_left (by rw [l1]; exact hr)]; exact rowChan_get p c ky kx hc hky hkx
+    · simp only; rw [List.getElem?_append_left (by rw [l2]; exact hr)]; exact rowY_get p c ky kx hc hky hkx
+    · simp only; rw [List.getElem?_append_left (by rw [l3]; exact hr)]; exact rowX_get p c ky kx hc hky hkx
+    · simp only; rw [List.getElem?_append_left (by rw [l4]; exact hq)]; exact colY_get p yP xP py px hy hx
+    · simp only; rw [List.getElem?_append_left (by rw [l5]; exact hq)]; exact colX_get p yP xP py px hy hx
+
+
+/-- **C14 D7 (element form).** For an image view with positive row and column strides, element
+`(row (chan,k_y,k_x), column (patch_y,patch_x))` of the virtual im2col matrix built from
+`buildIm2col`'s tables is the element of the *logical zero-padded image* at
+`(chan, iy, ix) = (chan, patch_y·stride_h − pad_top + k_y·dil_y, patch_x·stride_w − pad_left + k_x·dil_x)`:
+the image element at its strided offset when `(iy, ix)` is inside the image, zero otherwise —
+whatever the strides. -/
+theorem c14_im2col_elem_layout_independent {α : Type} (p : Params) (cs rs : Nat) (t : Tables) (yP xP : Nat)
+    (ht : buildIm2col p cs rs = some t)
+    (hyP : outSize p.h p.kh p.strideH p.padTop p.padBottom p.dilY = some yP)
+    (hxP : outSize p.w p.kw p.strideW p.padLeft p.padRight p.dilX = some xP)
+    (hsth : 0 < p.sth) (hstw : 0 < p.stw) (img : Int → α) (zero : α)
+    (c ky kx py px : Nat) (hc : c < p.chans) (hky : ky < p.kh) (hkx : kx < p.kw) (hy : py < yP) (hx : px < xP) :
+    let iy : Int := (py : Int) * p.strideH - p.padTop + (ky : Int) * p.dilY
+    let ix : Int := (px : Int) * p.strideW - p.padLeft + (kx : Int) * p.dilX
+    im2colElem t p.h p.w p.sth p.stw img zero ((c * p.kh + ky) * p.kw + kx) (py * xP + px) =
+      some (if (0 ≤ iy ∧ iy ≤ (p.h : Int) - 1) ∧ (0 ≤ ix ∧ ix ≤ (p.w : Int) - 1)
+        then img ((c : Int) * p.sc + iy * p.sth + ix * p.stw) else zero) := by
+  intro iy ix
+  obtain ⟨hn, _, h1, h2, h3, h4, h5⟩ :=
+    c14_im2col_tables_layout_independent p cs rs t yP xP ht hyP hxP c ky kx py px hc hky hkx hy hx
+  have hpos : 0 < p.h ∧ 0 < p.w := by
+    unfold buildIm2col at ht
+    split at ht
+    · cases ht
+    · rename_i hg
+      constructor <;> (apply Nat.pos_of_ne_zero; intro h0; exact hg (by simp [h0]))
+  have hy' : (p.sth : Int) * ky * p.dilY + ((py : Int) * p.strideH - p.padTop) * p.sth = iy * p.sth := by
+    show _ = ((py : Int) * p.strideH - p.padTop + (ky : Int) * p.dilY) * p.sth
+    rw [Int.add_mul, Int.mul_assoc, Int.mul_comm (p.sth : Int), Int.add_comm]
+  have hx' : (p.stw : Int) * kx * p.dilX + ((px : Int) * p.strideW - p.padLeft) * p.stw = ix * p.stw := by
+    show _ = ((px : Int) * p.strideW - p.padLeft + (kx : Int) * p.dilX) * p.stw
+    rw [Int.add_mul, Int.mul_assoc, Int.mul_comm (p.stw : Int), Int.add_comm]
+  unfold im2colElem
+  have hr : ¬ ((c * p.kh + ky) * p.kw + kx ≥ t.nRows) := by
+    rw [hn]; exact Nat.not_le.mpr (row_index_lt p c ky kx hc hky hkx)
+  rw [if_neg hr, h1, h2, h3, h4, h5]
+  simp only [hy', hx']
+  have ty := c14_im2col_padding_test_layout_independent p.h p.sth iy hpos.1 hsth
+  have tx := c14_im2col_padding_test_layout_independent p.w p.stw ix hpos.2 hstw
+  by_cases hin : (0 ≤ iy ∧ iy ≤ (p.h : Int) - 1) ∧ (0 ≤ ix ∧ ix ≤ (p.w : Int) - 1)
+  · rw [if_pos hin, ty.mpr hin.1, tx.mpr hin.2]
+    simp [Int.add_assoc]
+  · rw [if_neg hin]
+    have : (inImage p.h p.sth (iy * p.sth) && inImage p.w p.stw (ix * p.stw)) = false := by
+      rcases Classical.not_and_iff_not_or_not.mp hin with h | h
+      · have : inImage p.h p.sth (iy * p.sth) = false := by
+          cases hb : inImage p.h p.sth (iy * p.sth)
+          · rfl
+          · exact absurd (ty.mp hb) h
+        rw [this]; rfl
+      · have : inImage p.w p.stw (ix * p.stw) = false := by
+          cases hb : inImage p.w p.stw (ix * p.stw)
+          · rfl
+          · exact absurd (tx.mp hb) h
+        rw [this, Bool.and_false]
+    rw [this]; rfl
+
+
+/-- Non-vacuity of the element theorem's hypotheses and of the padded tables: 3×3 image, 3×3
+kernel, pads 1, row step 4: 9 used rows, 12 table rows; the K-padding rows are never read
+(`im2colElem` returns zero for them, as the int8 packer does; the f32 path has row step 1). -/
+example :
+    (buildIm2col ⟨1, 3, 3, 3, 3, 1, 1, 1, 1, 1, 1, 1, 1, 9, 3, 1⟩ 1 4).map
+      (fun t => (t.nRows, t.rowY.length, im2colElem t 3 3 3 1 (fun o => o) (-1) 10 0,
+        im2colElem t 3 3 3 1 (fun o => o) (-1) 4 0, im2colElem t 3 3 3 1 (fun o => o) (-1) 0 0)) =
+      some (9, 12, some (-1), some 0, some (-1)) := by decide
+
 end RtenVerif.Im2Col
+
+/-! ## D5b: the transform loop of `TransformInputs::run_in_place` -/
+namespace RtenVerif.Layout
+open RtenVerif.Arr (Err)
+
+/-- What `run_in_place` sees in `ctx.inputs()`: the in-place positions are `None`. -/
+def maskFrom (ips : List Nat) : Nat → List TState → List (Option TState)
+  | _, [] => []
+  | k, t :: ts => (if ips.contains k then none else some t) :: maskFrom ips (k + 1) ts
+
+theorem maskFrom_getElem? (ips : List Nat) : ∀ (ts : List TState) (k i : Nat),
+    (maskFrom ips k ts)[i]? = (ts[i]?).map (fun t => if ips.contains (k + i) then none else some t)
+  | [], _, _ => by simp [maskFrom]
+  | t :: ts, k, 0 => by simp [maskFrom]
+  | t :: ts, k, i + 1 => by
+    simp only [maskFrom, List.getElem?_cons_succ]
+    rw [maskFrom_getElem? ips ts (k + 1) i]
+    congr 2; funext t; rw [Nat.add_assoc, Nat.add_comm 1 i]
+
+theorem maskFrom_set (ips : List Nat) : ∀ (ts : List TState) (k i : Nat) (t' : TState),
+    k + i ∉ ips →
+    maskFrom ips k (ts.set i t') = (maskFrom ips k ts).set i (some t')
+  | [], _, _, _, _ => by simp [maskFrom]
+  | t :: ts, k, 0, t', h => by
+    have h' : k ∉ ips := by simpa using h
+    simp [maskFrom, h']
+  | t :: ts, k, i + 1, t', h => by
+    simp only [List.set_cons_succ, maskFrom]
+    rw [maskFrom_set ips ts (k + 1) i t' (by rw [Nat.add_assoc, Nat.add_comm 1 i]; exact h)]
+
+/-- **C14 D5b.** When no transform touches an in-place position (which `in_place_inputs` guarantees
+for the set it offers, D5), the transform loop of `run_in_place` — over the inputs with the
+in-place positions masked out — does exactly what the loop of `run` does on the other inputs, error
+and panic paths included. -/
+theorem c14_transform_run_in_place_loop (ips : List Nat) : ∀ (specs : List PermuteSpec) (ts : List TState),
+    (∀ sp ∈ specs, sp.index ∉ ips) →
+    applyTransformsOpt specs (maskFrom ips 0 ts) = (applyTransforms specs ts).map (maskFrom ips 0)
+  | [], ts, _ => rfl
+  | sp :: rest, ts, h => by
+    have hsp : sp.index ∉ ips := h sp (by simp)
+    unfold applyTransformsOpt applyTransforms
+    rw [maskFrom_getElem? ips ts 0 sp.index, Nat.zero_add]
+    cases hk : ts[sp.index]? with
+    | none => rfl
+    | some t =>
+      simp only [Option.map_some, List.contains_iff_mem, hsp, if_false]
+      cases hv : applyPerm t.view sp.perm with
+      | error e => rfl
+      | ok v =>
+        simp only
+        rw [← maskFrom_set ips ts 0 sp.index _ (by rw [Nat.zero_add]; exact hsp)]
+        exact c14_transform_run_in_place_loop ips rest _ (fun q hq => h q (by simp [hq]))
+
+/-- A transform aimed at an in-place position fails with `MissingInputs` (the reason
+`in_place_inputs` must not offer such a position). -/
+theorem c14_transform_run_in_place_missing (ips : List Nat) (sp : PermuteSpec) (rest : List PermuteSpec)
+    (ts : List TState) (h : sp.index ∈ ips) :
+    applyTransformsOpt (sp :: rest) (maskFrom ips 0 ts) = .error .err := by
+  unfold applyTransformsOpt
+  rw [maskFrom_getElem? ips ts 0 sp.index, Nat.zero_add]
+  cases ts[sp.index]? with
+  | none => rfl
+  | some t => simp [h]
+
+
+example :
+    let t : TState := ⟨[0, 1, 2, 3, 4, 5], ⟨0, 6, [(2, 3), (3, 1)]⟩⟩
+    (applyTransformsOpt [⟨1, none⟩] (maskFrom [0] 0 [t, t])).toOption.map (fun l => l.map (fun o => o.map (·.view.dims))) =
+      some [none, some [(3, 1), (2, 3)]] ∧
+    (applyTransformsOpt [⟨0, none⟩] (maskFrom [0] 0 [t, t])).toOption = none := by decide
+
+end RtenVerif.Layout
